@@ -232,15 +232,16 @@ def pyInt (bs : Bytes) : R Nat :=
   else if bs ≠ [] ∧ bs.all isDigit then pure (digitsVal bs)
   else throw .value
 
-/-- `float(bs.decode("ascii"))` over the modelled alphabet, as an exact decimal -/
+/-- `float(bs.decode("ascii"))` over the modelled alphabet, as an exact decimal with the digits as
+written (`Dec.norm` gives the digits of the float's `repr`) -/
 def pyFloat (bs : Bytes) : R Dec :=
   if ¬ bs.all modelled then throw .unmodelled
   else
     let ip := bs.takeWhile isDigit
     match bs.dropWhile isDigit with
-    | [] => if ip = [] then throw .value else pure ⟨digitsVal ip, [0]⟩
+    | [] => if ip = [] then throw .value else pure ⟨digitsVal ip, []⟩
     | 46 :: fr =>
-      if fr.all isDigit ∧ (ip ≠ [] ∨ fr ≠ []) then pure (Dec.norm ⟨digitsVal ip, fr.map (· - 48)⟩)
+      if fr.all isDigit ∧ (ip ≠ [] ∨ fr ≠ []) then pure ⟨digitsVal ip, fr.map (· - 48)⟩
       else throw .value
     | _ => throw .value
 
@@ -288,11 +289,21 @@ def fmtDir (d : Nat) : Bytes :=
 
 def nul6 : Bytes := [0, 0, 0, 0, 0, 0]
 
+/-- `"\0" * 6 if t is None else t.strftime("%H%M%S")` -/
+def timeBytes : Option (Nat × Nat × Nat) → Bytes
+  | none => nul6
+  | some (h, m, s) => d2 h ++ d2 m ++ d2 s
+
+/-- `"\0" * 6 if d is None else d.strftime("%d%m%y")` -/
+def dateBytes : Option (Nat × Nat × Nat) → Bytes
+  | none => nul6
+  | some (d, m, y) => d2 d ++ d2 m ++ d2 y
+
 /-- `GPSData.as_bytes` -/
 def Gps.asBytes (g : Gps) : Bytes :=
   [if g.valid then 65 else 86]
-  ++ (match g.time with | none => nul6 | some (h, m, s) => d2 h ++ d2 m ++ d2 s)
-  ++ (match g.date with | none => nul6 | some (d, m, y) => d2 d ++ d2 m ++ d2 y)
+  ++ timeBytes g.time
+  ++ dateBytes g.date
   ++ [if g.north then 78 else 83]
   ++ fmtLat g.lat4
   ++ [if g.east then 69 else 87]
@@ -320,15 +331,24 @@ def parseDate (b : Bytes) : R (Option (Nat × Nat × Nat)) :=
     let y ← pyInt (sl b 4 6)
     if 1 ≤ m ∧ m ≤ 12 ∧ 1 ≤ d ∧ d ≤ daysInMonth m y then pure (some (d, m, y)) else throw .value
 
+/-- `float(b.decode("ascii")) if len(b.replace(b"\x00", b"")) else 0` -/
+def parseSpeed (b : Bytes) : R Dec := if allNul b then pure Dec.zero else Dec.norm <$> pyFloat b
+
+/-- `int(b) if len(b.replace(b"\x00", b"")) else 0` -/
+def parseDir (b : Bytes) : R Nat := if allNul b then pure 0 else pyInt b
+
+/-- `float(b.decode("ascii"))` of a coordinate, in units of 10^-4 -/
+def parseCoord (b : Bytes) : R Nat := pyFloat b >>= Dec.toFixed4
+
 /-- `GPSData.from_bytes` followed by `GPSData.__init__` (evaluation order of the constructor) -/
 def Gps.fromBytes (d : Bytes) : R Gps := do
   if d.length ≠ 40 then throw .assertion
   let time ← parseTime (sl d 1 7)
   let date ← parseDate (sl d 7 13)
-  let lat ← (← pyFloat (sl d 14 23)).toFixed4
-  let lon ← (← pyFloat (sl d 24 34)).toFixed4
-  let speed ← if allNul (sl d 34 37) then pure Dec.zero else pyFloat (sl d 34 37)
-  let dir ← if allNul (sl d 37 40) then pure 0 else pyInt (sl d 37 40)
+  let lat ← parseCoord (sl d 14 23)
+  let lon ← parseCoord (sl d 24 34)
+  let speed ← parseSpeed (sl d 34 37)
+  let dir ← parseDir (sl d 37 40)
   pure ⟨sl d 0 1 == [65], time, date, sl d 13 14 == [78], lat, sl d 23 24 == [69], lon, speed, dir⟩
 
 /-- stands for `GPSData.zero()` (evaluated once at import time with that day's date); it is only the
